@@ -39,9 +39,18 @@ RTGT = lambda: OneOf(   # noqa
         sensb_res=Bytes(12, 13, mutable=True)),
     Obj('nfc.clf:RemoteTarget', _partial=False, _brty_send='424F', _brty_recv='424F',
         atr_res=Bytes(17, 64, mutable=True)))
+# which documented error: a host link failure other than a read timeout (any errno: EIO, ENODEV, ...) leaves as
+# IOError, never dressed up as an RF error
+def host_doc(cmd):
+    d = dict(DOC)
+    for k in ('nfc.clf:TimeoutError', 'nfc.clf:TransmissionError', 'nfc.clf:BrokenLinkError', 'nfc.clf:ProtocolError'):
+        d[k] = ['call_raised("%s") != "IOError" or call_errno("%s") == 110' % (cmd, cmd)]
+    return d
+
+
 contract('nfc.clf.pn53x:Device.send_cmd_recv_rsp', 'C13',
          dict(self=DEV(), target=RTGT(), data=Bytes(0, 262, mutable=True), timeout=Const(0.1)),
-         name='C13/pn532.send_cmd_recv_rsp', raises=DOC, use=USE)
+         name='C13/pn532.send_cmd_recv_rsp', raises=host_doc('C13/pn53x.command'), use=USE)
 LTGT = lambda: OneOf(   # noqa
     Obj('nfc.clf:LocalTarget', _partial=False, _brty_send='106A', _brty_recv='106A'),
     Obj('nfc.clf:LocalTarget', _partial=False, _brty_send='424F', _brty_recv='424F',
@@ -169,9 +178,25 @@ for mod, what, tt1 in (('nfc.clf.pn531:', 'pn531', 'nfc.clf.pn53x:'), ('nfc.clf.
     dev = lambda mod=mod: Obj(mod + 'Device', chipset=Obj(mod + 'Chipset', transport=None, log=Log()), log=Log())  # noqa
     contract('nfc.clf.pn53x:Device.send_cmd_recv_rsp', 'C13',
              dict(self=dev(), target=RTGT(), data=Bytes(0, 262, mutable=True), timeout=Const(0.1)),
-             name='C13/%s.send_cmd_recv_rsp' % what, raises=DOC, use=use,
+             name='C13/%s.send_cmd_recv_rsp' % what, use=use,
+             raises=host_doc('C13/acr122.command' if what == 'acr122' else 'C13/pn53x.command'),
              # a Type 1 Tag command has at least its command code (the real RC-S956 path reads data[0])
              requires=['target.rid_res is None or len(data) >= 1'])
     contract('nfc.clf.pn53x:Device.send_rsp_recv_cmd', 'C13',
              dict(self=dev(), target=LTGT(), data=Opt(Bytes(0, 262, mutable=True)), timeout=Const(0.1)),
              name='C13/%s.send_rsp_recv_cmd' % what, raises=DOC, use=use)
+
+# ---------------------------------------------------------------- the USB transport itself
+# "whatever the host link does": every libusb error of every bulk transfer (the zero-length packet after a frame
+# that fills whole packets included) leaves nfc.clf.transport.USB as IOError, nothing else does
+TU = 'nfc.clf.transport:USB'
+USBT = lambda: Obj(TU, usb_dev=Obj('models.hostlink:UsbHandle', _partial=False, transfers=0),   # noqa
+                   usb_out=Opt(Obj('models.hostlink:UsbEndpoint', _partial=False, addr=Int(1, 15), size=OneOf(Const(8), Const(64), Const(512)))),
+                   usb_inp=Opt(Obj('models.hostlink:UsbEndpoint', _partial=False, addr=Int(129, 143), size=Const(64))))
+contract(TU + '.write', 'C13', dict(self=USBT(), frame=Bytes(0, 600, mutable=True), timeout=Int(0, 1000)),
+         name='C13/usb.write', raises={'IOError': []},
+         ensures=[('O-zlp', 'self.usb_out is None or self.usb_dev.transfers == '
+                            '(2 if len(frame) % self.usb_out.size == 0 else 1)')])
+contract(TU + '.read', 'C13', dict(self=USBT(), timeout=Int(0, 1000)),
+         name='C13/usb.read', raises={'IOError': []},
+         ensures=[('O-nonempty', 'result is None or (len(result) >= 1 and len(result) <= 300)')])
